@@ -31,7 +31,7 @@ fn project(rows: &[Row], keep: &[&str]) -> Vec<String> {
     v.sort(); v
 }
 
-// @grid c23_grid_query_transformations tier=quick bound="numbers 0..8; edges predecessor/successor/multiple(max:3) x scopes plain/@optional/@fold x 6 comparison operators x arguments {0,2,5}; recursion depths 1..3"
+// @grid c23_grid_query_transformations tier=quick bound="numbers 0..8; edges predecessor/successor/multiple(max:3) x scopes plain/@optional/@fold x 6 comparison operators x arguments {0,2,5}; recursion depths 1..3 on predecessor/successor and 1..5 on Composite.divisor (implicit coercion at every level) and Composite.multiple(max:2); 6 string operator pairs x 10 patterns (4 of them invalid regexes) x 3 scopes with static arguments, and with tag arguments; contains/is_null pairs; tag renaming"
 // @ob adding a filter never adds rows; a filter and its negation partition the rows (outside missing optional scopes); `=` agrees with one_of on a one-element list; making an edge @optional keeps all previous rows; raising a recursion depth never removes rows; renaming outputs and reordering sibling selections changes no row contents
 pub(crate) fn c23_grid_query_transformations() {
     let mut n = 0u64;
@@ -82,6 +82,67 @@ pub(crate) fn c23_grid_query_transformations() {
         }
         n += 1;
     } }
+    // recursion through an edge that needs an implicit coercion at every level, and through a parameterized edge
+    for (outer, edge) in [("... on Composite", "divisor"), ("... on Composite", "multiple(max: 2)")] { for d in 1..4usize {
+        vk::grid_case(format_args!("recurse edge={} depth={}", edge, d));
+        let (open, close) = if outer.is_empty() { (String::new(), "") } else { (format!("{outer} {{"), "}") };
+        let q = |d: usize| format!(r#"{{ Number(min: 1, max: 12) {{ {open} value @output(name: "v") {edge} @recurse(depth: {d}) {{ value @output(name: "w") }} {close} }} }}"#);
+        if let (Some(a), Some(b)) = (rows(&q(d), &[], &mut failures), rows(&q(d + 1), &[], &mut failures)) {
+            if !included(&keyed(&a), &keyed(&b)) { failures.insert(format!("raising the recursion depth of {edge} from {d} removed rows")); }
+        }
+        n += 1;
+    } }
+    // string and null operators with their negations, static and tagged arguments, valid and invalid patterns
+    let string_negation = [("has_prefix", "not_has_prefix"), ("has_suffix", "not_has_suffix"), ("has_substring", "not_has_substring"), ("regex", "not_regex"), ("=", "!="), ("<", ">=")];
+    let patterns = ["t", "e", "o$", "^t.*e$", "", "(", "[a-", "*", "a{2,1}", "thirteen"];
+    for scope in ["", "successor", "multiple(max: 3)"] {
+        let (open, close) = if scope.is_empty() { (String::new(), "") } else { (format!("{scope} {{"), "}") };
+        let base = format!(r#"{{ Number(min: 0, max: 14) {{ value @output(name: "v") {open} name @output(name: "w") {close} }} }}"#);
+        let Some(all) = rows(&base, &[], &mut failures) else { continue; };
+        let all_k = keyed(&all);
+        for (pos, neg) in string_negation { for pat in patterns {
+            vk::grid_case(format_args!("scope={} op={} pattern={}", scope, pos, pat));
+            let q = |op: &str| format!(r#"{{ Number(min: 0, max: 14) {{ value @output(name: "v") {open} name @output(name: "w") @filter(op: "{op}", value: ["$x"]) {close} }} }}"#);
+            let arg = FieldValue::String(Arc::from(pat));
+            let (Some(rp), Some(rn)) = (rows(&q(pos), &[("x", arg.clone())], &mut failures), rows(&q(neg), &[("x", arg.clone())], &mut failures)) else { continue; };
+            let (kp, kn) = (keyed(&rp), keyed(&rn));
+            if !included(&kp, &all_k) || !included(&kn, &all_k) { failures.insert(format!("adding a filter ({pos}/{neg}) added rows in scope [{scope}]")); }
+            let mut both = kp.clone(); both.extend(kn.clone()); both.sort();
+            // `<` / `>=` are complementary only on non-null operands (an ordering comparison with null is false both ways)
+            let expect: Vec<String> = if pos == "<" { keyed(&all.iter().filter(|r| r[&Arc::from("w") as &Arc<str>] != FieldValue::Null).cloned().collect::<Vec<_>>()) } else { all_k.clone() };
+            if both != expect { failures.insert(format!("filter {pos} and its negation {neg} do not partition the rows in scope [{scope}] for pattern [{pat}]")); }
+            n += 1;
+        } }
+        // the same operators with the argument coming from a tag (the name of the starting vertex)
+        if !scope.is_empty() { for (pos, neg) in string_negation {
+            vk::grid_case(format_args!("scope={} op={} tagged", scope, pos));
+            let q = |op: &str| format!(r#"{{ Number(min: 0, max: 14) {{ value @output(name: "v") name @tag(name: "t") {open} name @output(name: "w") @filter(op: "{op}", value: ["%t"]) {close} }} }}"#);
+            let (Some(rp), Some(rn)) = (rows(&q(pos), &[], &mut failures), rows(&q(neg), &[], &mut failures)) else { continue; };
+            let (kp, kn) = (keyed(&rp), keyed(&rn));
+            let mut both = kp.clone(); both.extend(kn.clone()); both.sort();
+            let expect: Vec<String> = if pos == "<" { keyed(&all.iter().filter(|r| r[&Arc::from("w") as &Arc<str>] != FieldValue::Null).cloned().collect::<Vec<_>>()) } else { all_k.clone() };
+            if both != expect { failures.insert(format!("filter {pos} and its negation {neg} with a tag argument do not partition the rows in scope [{scope}]")); }
+            // renaming the tag changes nothing
+            if let Some(rr) = rows(&q(pos).replace(r#"name: "t""#, r#"name: "renamed""#).replace("%t", "%renamed"), &[], &mut failures) {
+                if rr != rp { failures.insert(format!("renaming a tag changed the rows ({pos}, scope [{scope}])")); }
+            }
+            n += 1;
+        } }
+    }
+    // list membership and null tests
+    for (pos, neg, prop, arg) in [("contains", "not_contains", "vowelsInName", FieldValue::String(Arc::from("e"))), ("contains", "not_contains", "vowelsInName", FieldValue::String(Arc::from("u"))),
+                                  ("is_null", "is_not_null", "name", FieldValue::Null), ("is_null", "is_not_null", "vowelsInName", FieldValue::Null)] {
+        vk::grid_case(format_args!("op={} prop={}", pos, prop));
+        let base = format!(r#"{{ Number(min: 0, max: 14) {{ value @output(name: "v") successor {{ value @output(name: "w") }} }} }}"#);
+        let q = |op: &str| if arg == FieldValue::Null { format!(r#"{{ Number(min: 0, max: 14) {{ value @output(name: "v") successor {{ value @output(name: "w") {prop} @filter(op: "{op}") }} }} }}"#) }
+                           else { format!(r#"{{ Number(min: 0, max: 14) {{ value @output(name: "v") successor {{ value @output(name: "w") {prop} @filter(op: "{op}", value: ["$x"]) }} }} }}"#) };
+        let args: Vec<(&str, FieldValue)> = if arg == FieldValue::Null { vec![] } else { vec![("x", arg.clone())] };
+        if let (Some(all), Some(rp), Some(rn)) = (rows(&base, &[], &mut failures), rows(&q(pos), &args, &mut failures), rows(&q(neg), &args, &mut failures)) {
+            let mut both = keyed(&rp); both.extend(keyed(&rn)); both.sort();
+            if both != keyed(&all) { failures.insert(format!("filter {pos} and its negation {neg} on {prop} do not partition the rows")); }
+        }
+        n += 1;
+    }
     vk::grid_done("c23_grid_query_transformations", n);
     if !failures.is_empty() { panic!("query transformation relations violated: {{{}}}", failures.into_iter().take(8).collect::<Vec<_>>().join("; ")); }
 }
